@@ -34,11 +34,13 @@ class IkeSaController:
     def _get_ike_sa_by_spi(self, spi):
         return next(x for x in self.ike_sas if x.my_spi == spi)
 
-    def _get_ike_sa_by_peer_addr(self, peer_addr):
+    def _get_ike_sa_by_peer_addr(self, peer_addr, my_addr):
         # an IKE_SA that has been rekeyed or is being deleted takes no new work: its successor (or a new IKE_SA) does
         closing = (IkeSa.State.REKEYED, IkeSa.State.DEL_AFTER_REKEY_IKE_SA_REQ_SENT, IkeSa.State.DEL_IKE_SA_REQ_SENT,
                    IkeSa.State.DELETED)
-        return next(x for x in self.ike_sas if x.peer_addr == peer_addr and x.state not in closing)
+        # (connections are keyed by the address pair: an IKE_SA from another local address belongs to another connection)
+        return next(x for x in self.ike_sas
+                    if x.peer_addr == peer_addr and x.my_addr == my_addr and x.state not in closing)
 
     def _get_ike_sa_by_child_sa_spi(self, spi):
         for ike_sa in self.ike_sas:
@@ -109,7 +111,7 @@ class IkeSaController:
         # look for an active IKE_SA with the peer
         created = False
         try:
-            ike_sa = self._get_ike_sa_by_peer_addr(peer_addr)
+            ike_sa = self._get_ike_sa_by_peer_addr(peer_addr, my_addr)
         except StopIteration:
             created = True
             my_addr = xfrm_acquire.saddr.to_ipaddr(family)
